@@ -110,6 +110,43 @@ CHECKS = {
         note='Trusted: structural identity of terms implies bit-equal floats. Known finding: initial_guess=random (hidden RNG state). Outside: MPI, adaptive step sizes, timings.',
         design='4/C19', technique='symbolic execution of whole real runs; syntactic term identity, SMT equality over the reals as fallback',
     ),
+    'C05': dict(
+        category='other',
+        text='Weak fit (stated as such): the node/weight computation is qmat + LAPACK and cannot be symbolic. Per enumerated configuration (6 node families x 4 types x M<=5(8) x 5(7) intervals) the real CollBase tables are converted to '
+             'exact rationals and the solver decides (QF_LRA) for every polynomial with coefficients in [-1,1] that weights / Q integrate exactly (degree < order / < M); structural clauses (ordering, end points, padding, S=diff Q, affine covariance) are evaluated concretely.',
+        note='Trusted: z3; tolerance 1e-11*length (1e-9 ill-conditioned families). The solver closes the data quantifier only; configurations are enumerated. Known finding: node snapping on large-offset intervals (qmat).',
+        design='4/C05', technique='tables from the real code as exact rationals + SMT (QF_LRA) over all polynomial data',
+    ),
+    'C11': dict(
+        category='other',
+        text='Time: node-transfer tables of the real BaseTransfer (families x types x counts<=4(6)): polynomial exactness, R P = I, decided over all data by the solver. Space: the real mesh_to_mesh.restrict/prolong are executed on symbolic meshes '
+             '(mesh and imex_mesh, 1-D/2-D(/3-D), periodic and Dirichlet, orders 2-8, nested shortcut on/off); every interpolated value must equal the Lagrange polynomial through the p nearest coarse points with weights recomputed in exact rationals in the query; '
+             'restriction = scaled transpose; type/shape preserved.',
+        note='Trusted: z3; exact dense product stands in for scipy.sparse .dot after the real code built the matrices; tolerance 1e-11/1e-12. Outside: FFT transfers, grids > 17(33). Known finding: periodic grids exactly as wide as the stencil.',
+        design='4/C11', technique='symbolic execution of the real transfer classes on z3-valued meshes + SMT (QF_LRA) against an in-query rational Lagrange oracle',
+    ),
+    'C15': dict(
+        category='other',
+        text='Reduced scope: (i) real QDiagonalization.update_nodes on complex symbolic u0 solves the collocation system (SMT, 1e-9); (ii) helper tables: iFFT FFT = I and W E_alpha W^-1 = diag of the factors that get_G_inv_matrix really uses, for every complex vector '
+             '(n_steps<=6(8), alpha in {1,1e-2,1e-8(,...)}); (iii) one real it_ParaDiag iteration of controller_ParaDiag_nonMPI on arbitrary symbolic iterates equals the alpha-circulant preconditioned all-at-once iteration defined inside the query; the sequential collocation solution is its fixed point.',
+        note='Trusted: z3; alpha enumerated; tolerances scale with cond(J). Outside: symbolic alpha, n_steps>8, nonlinear problems, converged multi-block runs. Known finding: alpha = 1 is singular.',
+        design='4/C15', technique='symbolic execution of the real ParaDiag sweeper/controller on complex z3 terms + SMT (QF_LRA); tables as exact rationals',
+    ),
+    'C17': dict(
+        category='other',
+        text='Weak fit, reduced scope: operator matrices of ChebychevHelper / UltrasphericalHelper (differentiation p<=3, integration, basis conversions and inverses, Dirichlet/Neumann/integral rows, integration weights, Kronecker expansion) for N=2..8(16), '
+             'reference and mapped intervals: per operator one SMT query over all coefficient vectors in the unit box against exact polynomial calculus in the monomial basis (T_n, U_n, Gegenbauer by exact recurrences - not the implementation formulas).',
+        note='Trusted: z3; tolerance 1e-10 scaled. NOT claimed: DCT/FFT transform round trips (C boundary), Fourier operators (only oracle = implementation formula), N>16. Known finding: N = 1 raises.',
+        design='4/C17', technique='tables from the real code as exact rationals + SMT (QF_LRA) against exact monomial-basis calculus',
+    ),
+    'C18': dict(
+        category='other',
+        text='Stencils: weights from the real get_finite_difference_stencil for all standard layouts (derivative 1-4, order<=6(8)) and sampled integer offset sets: exact on every polynomial of degree < n (solver over the unit box, backward-error scaled tolerance). '
+             'Matrices: the real get_finite_difference_matrix applied to arbitrary symbolic grid functions / polynomial data: periodic rows apply exactly the stencil with wrap-around (including custom offsets), Dirichlet/Neumann/mixed closures with symbolic boundary data '
+             'reproduce the derivative within the closure exactness degree, n-D = Kronecker sum; get_1d_grid spacing.',
+        note='Trusted: z3; weights come from numpy.linalg.solve (enumerated configurations). Known finding: reduce=True closure for derivative >= 3.',
+        design='4/C18', technique='tables from the real code as exact rationals applied to z3-valued grid data + SMT (QF_LRA)',
+    ),
 }
 
 NOT_APPLICABLE = {
